@@ -182,8 +182,20 @@ def hooks(ctx: Ctx):
             fn = (dotted(v.func) or "").split(".")[-1]
             if fn not in ("namedtuple", "NamedTuple", "Enum", "IntEnum", "type", "make_dataclass", "TypedDict"):
                 continue
-            users = [fi for fi in prog.functions.values() if fi.cls is not None and fi.cls.name in state_classes and
-                     any(isinstance(n, ast.Name) and n.id == bound for n in walk_local(fi.node))]
+            def keeps(fi):
+                """Does this method put an instance into the object's state?  (a cached property returning one, or a store of an
+                expression that mentions the class into an attribute of self)"""
+                mentions = lambda node: any(isinstance(n, ast.Name) and n.id == bound for n in ast.walk(node))   # noqa: E731
+                if "cached_property" in fi.decorators and mentions(fi.node):
+                    return True
+                for n in walk_local(fi.node):
+                    if isinstance(n, (ast.Assign, ast.AnnAssign)) and n.value is not None and mentions(n.value):
+                        tgts = n.targets if isinstance(n, ast.Assign) else [n.target]
+                        if any(isinstance(t, (ast.Attribute, ast.Subscript)) and fi.params and (dotted(t) or "").split(".")[0] == fi.params[0]
+                               for t in tgts):
+                            return True
+                return False
+            users = [fi for fi in prog.functions.values() if fi.cls is not None and fi.cls.name in state_classes and keeps(fi)]
             if not users:
                 continue
             n_dyn += 1
